@@ -256,6 +256,66 @@ theorem bridge_apply_to_line (since : Civil) (ts : Option Civil) (st : SinceStat
         omega
       simp [apply_to_line, bridge_line_date_is_valid, applyCount, applyToLine, ofCount, hlt, h']
 
+
+/-- the two ways the known line feed is handed to `try_find_line`, as the model writes them -/
+theorem twd_args (fwd : Bool) (lfo : Option Int) :
+    (if (decide (¬ (fwd = true))) = true then lfo else none) = (if fwd = true then none else lfo) := by
+  cases fwd <;> simp
+
+/-- the loop of `try_find_line_with_date` = the model's `twdLoop`, by induction on the attempts -/
+theorem twd_loop (K : SeekK) (F : FileV) (ts : Nat → Option Int) (start : Int) (fwd : Bool)
+    (hE : 0 < K.EXP) :
+    ∀ (n o : Nat) (lfo : Option Int) (pos : Int) (g : Nat), K.EXP + n < g →
+      try_find_line_with_date.loop1 K F ts start lfo fwd pos (n : Int) (o : Int) g
+        = ofSeek (twdLoop K F ts fwd n o lfo) := by
+  intro n
+  induction n with
+  | zero =>
+    intro o lfo pos g hg
+    obtain ⟨g, rfl⟩ : ∃ g', g = g' + 1 := ⟨g - 1, by omega⟩
+    simp [try_find_line_with_date.loop1, twdLoop, ofSeek]
+  | succ n ih =>
+    intro o lfo pos g hg
+    obtain ⟨g, rfl⟩ : ∃ g', g = g' + 1 := ⟨g - 1, by omega⟩
+    have hpos : ((n + 1 : Nat) : Int) > 0 := by omega
+    have h1 : ((n + 1 : Nat) : Int) - 1 = (n : Int) := by omega
+    simp only [try_find_line_with_date.loop1, twdLoop, hpos, if_true, h1, twd_args,
+      bridge_try_find_line K F o _ _ _ g (by omega) hE, bind, Except.bind, pure, Except.pure]
+    cases hl : tryFindLine K F o (if fwd = true then lfo else none)
+        (if fwd = true then none else lfo) with
+    | error e => simp only [ofSeek]
+    | ok l =>
+      simp only [ofSeek]
+      cases hd : LLine.date ts l with
+      | some d => simp
+      | none =>
+        simp only [ne_eq, not_true_eq_false, if_false]
+        have hlf : (if fwd = true then l.elf.off else l.slf.off)
+            = (if fwd = true then l.elf else l.slf).off := by
+          cases fwd <;> simp
+        simp only [hlf]
+        generalize (if fwd = true then l.elf else l.slf).off = lf
+        have hoff : (if fwd = true then lf + 1 else lf - 1)
+            = lf + (if fwd = true then (1 : Int) else -1) := by
+          cases fwd <;> simp <;> omega
+        simp only [hoff]
+        generalize lf + (if fwd = true then (1 : Int) else -1) = q
+        by_cases hr : q < 0 ∨ q > (F.len : Int)
+        · simp [hr]
+        · obtain ⟨m, rfl⟩ : ∃ m : Nat, q = (m : Int) := ⟨q.toNat, by omega⟩
+          simp only [hr, if_false, Int.toNat_natCast]
+          exact ih m (some lf) 0 g (by omega)
+
+/-- `try_find_line_with_date` as written = `Sk.tryFindLineWithDate` (C04, C11): the walk over at
+    most ATT undated lines in either direction, for every timestamp oracle. -/
+theorem bridge_try_find_line_with_date (K : SeekK) (F : FileV) (ts : Nat → Option Int)
+    (start : Nat) (lfo : Option Int) (fwd : Bool) (pos0 : Int) (fuel : Nat)
+    (hf : K.EXP + K.ATT < fuel) (hE : 0 < K.EXP) :
+    try_find_line_with_date K F ts (start : Int) lfo fwd pos0 fuel =
+      ofSeek (tryFindLineWithDate K F ts start lfo fwd) := by
+  simp only [try_find_line_with_date, tryFindLineWithDate]
+  exact twd_loop K F ts _ fwd hE K.ATT start lfo pos0 fuel hf
+
 #print axioms bridge_num_parallel_tasks
 #print axioms bridge_since_window
 #print axioms bridge_find_token
@@ -263,5 +323,6 @@ theorem bridge_apply_to_line (since : Civil) (ts : Option Civil) (st : SinceStat
 #print axioms bridge_try_find_line
 #print axioms bridge_line_date_is_valid
 #print axioms bridge_apply_to_line
+#print axioms Sk.Gen.bridge_try_find_line_with_date
 
 end Sk.Gen
